@@ -46,6 +46,12 @@ claim("C07", "exploration",
   "deterministic simulation: simulator-owned cancellation moment and cause over cycle-shape guests, liveness by supervisor watchdog and step bound, replay of the scenario tape",
   "DESIGN.md §5 C07")
 
+claim("C19", "exploration",
+  "Seeded simulation of derivation trees: 2-3 simulated clients apply With... methods with overlapping arguments to ANY earlier RuntimeConfig/ModuleConfig/FSConfig node or instantiate with it (also with a sock config in the context). A persistent-value model records every node; after every step every node's structural fingerprint (reflection walk, foreign pointers by identity) must equal the one taken at its creation, and what a guest observes when instantiated with a node (args, environ, preopens and their content, module name, start functions run, stdout wiring, wall clock, random source; memory limit and features for runtime configs) must equal the model's record. Sampling of an unbounded tree space.",
+  "Trusted: the fingerprint walker and the persistent-value model; interleaving is at call granularity (no yield exists inside a With... call), stated as sequential orders.",
+  "deterministic simulation: tape-driven derivation trees vs persistent-value model, structural fingerprint + guest-observed refinement after every step",
+  "DESIGN.md §5 C19")
+
 def main():
     m = dict(version=1,
       setup_cmd="./setup.sh",
